@@ -76,9 +76,80 @@ Proof.
   - intros st n h [l E]. exists l. exact E.
   - intros st n cfg h [l E]. exists l. exact E.
 Qed.
+
+(* LEFT TO RIGHT, ONCE: the first element / entry / statement is evaluated from the state the node was entered in, the remaining
+   ones from the state it left behind, and their values are put together in that order - for every tail, every handler and every
+   state. With C07_stop (nothing after a failing part runs) and induction over the tail this fixes the whole order. *)
+Theorem C07_sequences_left_to_right : forall x c st v st1, exec x c st = (EOk v, st1) ->
+  (forall rest vs st2, exec (AList rest) c st1 = (EOk (VList vs), st2) -> exec (AList (x :: rest)) c st = (EOk (VList (v :: vs)), st2)) /\
+  (forall rest err st2, exec (AList rest) c st1 = (err, st2) -> not_ok err -> exec (AList (x :: rest)) c st = (err, st2)) /\
+  (forall y rest, exec (AStmt (x :: y :: rest)) c st = exec (AStmt (y :: rest)) c st1) /\
+  (forall k rest kv st0 m st2, exec k c st0 = (EOk kv, st) -> exec (AMap rest) c st1 = (EOk (VMap m), st2) ->
+     exec (AMap ((k, x) :: rest)) c st0 = (EOk (VMap ((kv, v) :: m)), st2)) /\
+  (forall k rest kv st0 err st2, exec k c st0 = (EOk kv, st) -> exec (AMap rest) c st1 = (err, st2) -> not_ok err ->
+     exec (AMap ((k, x) :: rest)) c st0 = (err, st2)).
+Proof.
+  intros x c st v st1 H.
+  assert (LE : forall l s e s', (fix go (l : list ast) (st : state) {struct l} : (eres + list value) * state :=
+       match l with
+       | [] => (inr [], st)
+       | x :: r => match exec x c st with
+                   | (EOk v, st1) => match go r st1 with (inr vs, st2) => (inr (v :: vs), st2) | other => other end
+                   | (err, st1) => (inl err, st1)
+                   end
+       end) l s = (inl e, s') -> not_ok e).
+  { induction l as [|y r IH]; intros s e s' E; [discriminate E|].
+    destruct (exec y c s) as [[w| | | | |] s1] eqn:Ey; try (inversion E; subst; intros w0 Hw; discriminate Hw).
+    match type of E with context [(fix go (l : list ast) (st : state) {struct l} := _) r s1] =>
+      destruct ((fix go (l : list ast) (st : state) {struct l} := _) r s1) as [[e1|vs] s2] eqn:Eg end; [|discriminate E].
+    inversion E; subst. exact (IH _ _ _ Eg). }
+  assert (ME : forall l s e s', (fix go (l : list (ast * ast)) (st : state) {struct l} : (eres + list (value * value)) * state :=
+       match l with
+       | [] => (inr [], st)
+       | (k, v) :: r =>
+           match exec k c st with
+           | (EOk kv, st1) =>
+               match exec v c st1 with
+               | (EOk vv, st2) => match go r st2 with (inr rest, st3) => (inr ((kv, vv) :: rest), st3) | other => other end
+               | (err, st2) => (inl err, st2)
+               end
+           | (err, st1) => (inl err, st1)
+           end
+       end) l s = (inl e, s') -> not_ok e).
+  { induction l as [|[k y] r IH]; intros s e s' E; [discriminate E|].
+    destruct (exec k c s) as [[w| | | | |] s1] eqn:Ek; try (inversion E; subst; intros w0 Hw; discriminate Hw).
+    destruct (exec y c s1) as [[w2| | | | |] s2] eqn:Ey; try (inversion E; subst; intros w0 Hw; discriminate Hw).
+    match type of E with context [(fix go (l : list (ast * ast)) (st : state) {struct l} := _) r s2] =>
+      destruct ((fix go (l : list (ast * ast)) (st : state) {struct l} := _) r s2) as [[e1|m] s3] eqn:Eg end; [|discriminate E].
+    inversion E; subst. exact (IH _ _ _ Eg). }
+  split; [|split; [|split; [|split]]].
+  - intros rest vs st2 Hr. cbn [Eval.exec] in Hr |- *. rewrite H.
+    match goal with |- context [(fix go (l : list ast) (st : state) {struct l} := _) rest st1] =>
+      destruct ((fix go (l : list ast) (st : state) {struct l} := _) rest st1) as [[e1|ws] s2] eqn:Eg end.
+    + inversion Hr; subst. exfalso. exact (LE _ _ _ _ Eg _ eq_refl).
+    + inversion Hr; subst. reflexivity.
+  - intros rest err st2 Hr Hn. cbn [Eval.exec] in Hr |- *. rewrite H.
+    match goal with |- context [(fix go (l : list ast) (st : state) {struct l} := _) rest st1] =>
+      destruct ((fix go (l : list ast) (st : state) {struct l} := _) rest st1) as [[e1|ws] s2] end.
+    + exact Hr.
+    + inversion Hr; subst. exfalso. exact (Hn _ eq_refl).
+  - intros y rest. cbn [Eval.exec]. rewrite H. reflexivity.
+  - intros k rest kv st0 m st2 Hk Hr. cbn [Eval.exec] in Hr |- *. rewrite Hk, H.
+    match goal with |- context [(fix go (l : list (ast * ast)) (st : state) {struct l} := _) rest st1] =>
+      destruct ((fix go (l : list (ast * ast)) (st : state) {struct l} := _) rest st1) as [[e1|m'] s2] eqn:Eg end.
+    + inversion Hr; subst. exfalso. exact (ME _ _ _ _ Eg _ eq_refl).
+    + inversion Hr; subst. reflexivity.
+  - intros k rest kv st0 err st2 Hk Hr Hn. cbn [Eval.exec] in Hr |- *. rewrite Hk, H.
+    match goal with |- context [(fix go (l : list (ast * ast)) (st : state) {struct l} := _) rest st1] =>
+      destruct ((fix go (l : list (ast * ast)) (st : state) {struct l} := _) rest st1) as [[e1|m'] s2] end.
+    + exact Hr.
+    + inversion Hr; subst. exfalso. exact (Hn _ eq_refl).
+Qed.
+
 End C07.
 Print Assumptions C07_lazy.
 Print Assumptions C07_log_append_only.
 Print Assumptions C07_stop.
 Print Assumptions C07_operands_in_order.
 Print Assumptions C07_call_logged.
+Print Assumptions C07_sequences_left_to_right.
